@@ -118,7 +118,11 @@ def record(vdrive, driver, seed, n, scratch, types=None, extra_env=None, small=F
     if poison:
         cmd += ["-poison", str(poison)]
     t0 = time.time()
-    p = subprocess.run(cmd, capture_output=True, text=True, env=dict(os.environ, VERIF_SCHEMA=SCHEMA, **(extra_env or {})))
+    env = dict(os.environ, VERIF_SCHEMA=SCHEMA, **(extra_env or {}))
+    if poison:
+        # one P: whatever a refused call left in a sync.Pool is handed to the very next call, as it would be on a quiet connection goroutine
+        env["GOMAXPROCS"] = "1"
+    p = subprocess.run(cmd, capture_output=True, text=True, env=env)
     if p.returncode != 0:
         raise Broken("driver %s failed (rc=%d): %s" % (driver, p.returncode, (p.stderr or p.stdout)[-3000:]))
     st = json.load(open(stats))
